@@ -728,6 +728,13 @@ def fstring_chunk_values(ctx, rule):
 
         bad = judged(a.value)
         ctx.ob(rule, st, f"`{short(a, 60)}`: the value of a literal chunk comes out of the interpreter's own parser (or is the chunk unchanged)", bad is None, key="fstring-chunk|value-not-delegated", where=loc(a), detail=f"`{short(bad, 60)}` computes the value by other means (a codec, a hand-written unescape): non-ASCII text, \\N{{...}}, line continuations differ" if bad is not None else None)
+        # ... and each chunk is unescaped once: the node whose value is replaced ranges over the direct parts of *this* literal.
+        # Constants nested deeper (a string inside a replacement field, a nested f-string, a format spec) already hold
+        # their value - their own action ran first - and a recursive walk unescapes them a second time (r'\\n' -> newline)
+        root_ = tgt.value
+        it_ = element_source(fn, root_.id, defs) if isinstance(root_, ast.Name) else None
+        deep = [c for l_ in ast.walk(fn) if isinstance(l_, (ast.For, ast.comprehension)) and isinstance(l_.target, ast.Name) and isinstance(root_, ast.Name) and l_.target.id == root_.id for c in ast.walk(l_.iter) if isinstance(c, ast.Call) and (call_name(c) or "").split(".")[-1] in ("walk", "iter_child_nodes", "_walk", "walk_local")]
+        ctx.ob(rule, st, f"`{short(a, 40)}`: the chunk being unescaped is a direct part of this literal (one pass per literal; no recursive walk into fields that were processed already)", not deep, key="fstring-chunk|unescaped-recursively", where=loc(deep[0]) if deep else loc(a), detail=f"`{short(deep[0], 50)}` also reaches constants nested inside replacement fields" if deep else None)
 
 
 
